@@ -113,6 +113,11 @@ def rule_failed_retrieval(ctx, rid="R7.3"):
     eff = effects_of(prog)
     r = ctx.rule(rid, "the store is written only with a successfully retrieved document, never from a handler/finally", floor=1)
     rr = find_method(prog, "validators.RefResolver", "resolve_remote")
+    from .c15 import _sem_clauses
+    _sem_clauses(ctx, r, rr, ("cached", "wrapped"),
+                 {"cached": "what a retrieval returned is what a later look-up of the same URL finds, without another retrieval",
+                  "wrapped": "a failed retrieval leaves no entry behind"},
+                 {"cached": "store-key", "wrapped": "store-write-in-handler"})
     writers = []
     for f in prog.funcs.values():
         for w in eff.direct_writes(f):
@@ -254,6 +259,7 @@ def run(ctx):
     rule_caches_only_called(ctx)
     rule_no_held_iterator(ctx)
     scope.rule_memo_scope_free(ctx, "R7.6")
+    scope.rule_lazy_inside_scope(ctx, "R7.8")
     # R7.7: store keys are URIs up to an empty fragment and nothing coarser: a coarser key serves the document retrieved for one
     # URI to a later reference to another (history dependence)
     from .c15 import rule_uridict
